@@ -75,9 +75,10 @@ theorem inv_call {s s' : State} {t : Nat} {op : Op} (h : Inv s) (hc : call s t o
       have hG := h.ranGo s.nextK
       have hRm := h.remLoc s.nextK
       have hRs := fun u => h.errRaises s.nextK u
+      have hB := h.locBorn s.nextK
       have hT : ∀ u, (s.pc u).thenK = some s.nextK ↔ s.loc s.nextK = .inThen u := fun u => h.locThen u _
       have hE : ∀ u, (s.pc u).errK = some s.nextK ↔ s.loc s.nextK = .erring u := fun u => h.locErr u _
-      simp only [hk] at hQ hD hR hEr hG hRm hT hE hRs
+      simp only [hk] at hQ hD hR hEr hG hRm hT hE hRs hB
       inv_open
       inv_rest
     | remove k => cases hc; inv_case
